@@ -110,6 +110,17 @@ func c13Jobs(thorough bool) []c13job {
 				add(v, 3, p, cancel, b3)
 			}
 		}
+		// the same Worker used twice; the context of the first call is cancelled between the calls
+		for _, p := range [][]int{{0}, {1}} {
+			add(v, 1, p, "reuse", b1)
+		}
+		for _, p := range [][]int{{0, 0}, {0, 1}} {
+			bb := 2
+			if thorough {
+				bb = -1
+			}
+			add(v, 2, p, "reuse", bb)
+		}
 		// larger worker counts at a small bound
 		big := []int{4}
 		if thorough {
